@@ -11,7 +11,7 @@ dest=/verif/seeded/$name
 mkdir -p $dest
 cp $out/patch.diff $out/meta.json $dest/ 2>/dev/null
 demo_path=$(jq -r .demo_path $out/meta.json)
-demo_cmd=$(jq -r .demo_cmd $out/meta.json)
+demo_cmd=$(jq -r .demo_cmd $out/meta.json | sed -E 's/ +\((run from|for sdk)[^)]*\) *$//')
 demo_file=$(basename "$demo_path")
 [ -f "$out/$demo_file" ] || demo_file=$(ls $out | grep -v 'patch.diff\|meta.json\|TASK.md\|\.log$' | head -1)
 cp $out/$demo_file $dest/
